@@ -63,8 +63,10 @@ LitPool == [
               <<"1.0e-2", Real("-", "0.01")>> >>,
   bool |-> << <<"TRUE", <<"Bool", V("TRUE")>> >>, <<"FALSE", <<"Bool", V("FALSE")>> >>, <<"BOOL#TRUE", <<"Bool", V("TRUE")>> >>,
               <<"BOOL#FALSE", <<"Bool", V("FALSE")>> >> >>,
-  str  |-> << <<"'abc'", <<"Str", V("abc")>> >>, <<"''", <<"Str", V("")>> >>, <<"'a b'", <<"Str", V("a b")>> >> >>,
-  wstr |-> << <<"\"wx\"", <<"Str", V("wx")>> >> >>,
+  \* incl. strings whose content begins and ends with the OTHER kind of quote (a quote is a character like any other there)
+  str  |-> << <<"'abc'", <<"Str", V("abc")>> >>, <<"''", <<"Str", V("")>> >>, <<"'a b'", <<"Str", V("a b")>> >>,
+              <<"'\"q\"'", <<"Str", V("\"q\"")>> >> >>,
+  wstr |-> << <<"\"wx\"", <<"Str", V("wx")>> >>, <<"\"'y'\"", <<"Str", V("'y'")>> >> >>,
   dur  |-> << <<"T#1.5s", <<"Dur", V("1500000000")>> >>, <<"TIME#2m", <<"Dur", V("120000000000")>> >>,
               <<"T#-250ms", <<"Dur", V("-250000000")>> >>, <<"T#1d", <<"Dur", V("86400000000000")>> >>,
               <<"t#3h", <<"Dur", V("10800000000000")>> >> >>,
